@@ -28,8 +28,28 @@ Proof. vm_compute. reflexivity. Qed.
 Lemma pct_skip_is_2 : print_pct_skip = 2.
 Proof. reflexivity. Qed.
 
-Lemma buf_extra_is_1 : print_buf_extra = 1.
-Proof. reflexivity. Qed.
+(* admissible piece-buffer parameters: the heap size is at least strlen+1, and the stack array is chosen only
+   when strlen+1 fits (any EXTRA >= 1 and any TEST >= 1 will do; decided on the generated values) *)
+Lemma buf_params_admissible : (1 <=? print_buf_extra) && (1 <=? print_buf_stack_test) = true.
+Proof. vm_compute. reflexivity. Qed.
+
+Lemma buf_extra_ge_1 : 1 <= print_buf_extra.
+Proof. pose proof buf_params_admissible as A. apply andb_prop in A. destruct A as [A1 _]. apply Nat.leb_le. exact A1. Qed.
+
+(* ... hence the buffer always has room for the whole format text and a NUL, for EVERY format text *)
+Lemma bufsize_gt : forall fmt, length fmt < bufsize fmt.
+Proof.
+  intros fmt. pose proof buf_params_admissible as A. apply andb_prop in A. destruct A as [A1 A2].
+  apply Nat.leb_le in A1. apply Nat.leb_le in A2. unfold bufsize.
+  destruct (Nat.leb_spec (length fmt + print_buf_stack_test) print_buf_stack_cap); lia.
+Qed.
+
+(* the bound check of the piece buffer is live: a write at or behind its capacity is refused *)
+Lemma buf_put_refuses : forall fmt start n, bufsize fmt <= n -> buf_put fmt start n = None.
+Proof.
+  intros fmt start n H. unfold buf_put.
+  destruct (Nat.ltb_spec n (bufsize fmt)); [lia|]. rewrite andb_false_r. reflexivity.
+Qed.
 
 (* String_Format_To reserves room for the text and its NUL; File_Format_To returns vfprintf's count;
    print_to_with has the statement shape the model encodes *)
@@ -229,10 +249,11 @@ Lemma buf_put_mid : forall pre x rest,
   Forall (fun c => c <> 0) x ->
   buf_put (pre ++ x ++ rest) (length pre) (length x) = Some x.
 Proof.
-  intros pre x rest Hx. unfold buf_put, bufsize. rewrite buf_extra_is_1.
+  intros pre x rest Hx. unfold buf_put.
+  pose proof (bufsize_gt (pre ++ x ++ rest)) as Hb.
+  destruct (Nat.ltb_spec (length x) (bufsize (pre ++ x ++ rest))) as [_|Hbad]; [|rewrite !app_length in Hb; lia].
   rewrite !app_length.
   destruct (Nat.leb_spec (length pre + length x) (length pre + (length x + length rest) + 1)) as [_|Hbad]; [|lia].
-  destruct (Nat.ltb_spec (length x) (length pre + (length x + length rest) + 1)) as [_|Hbad]; [|lia].
   cbn [andb]. f_equal.
   rewrite <- !app_assoc. rewrite skipn_app, skipn_all, Nat.sub_diag. cbn [skipn app].
   rewrite firstn_app, firstn_all, Nat.sub_diag. cbn [firstn].
@@ -1067,10 +1088,6 @@ Theorem print_empty : forall k pos args,
   print_to k pos [] args = ODone (mkP k pos 0 []).
 Proof. reflexivity. Qed.
 
-(* a lone '%' : the NUL write of the piece buffer lands one byte behind it (malloc(strlen+1)) *)
-Theorem lone_percent_crashes : forall k pos a, print_to k pos [PCT] [a] = OCrash.
-Proof. reflexivity. Qed.
-
 End Final.
 
 (* ---- a concrete instance: the hypotheses of the theorems are satisfiable ---- *)
@@ -1100,6 +1117,15 @@ Proof. split; [vm_compute; lia|]. eexists. split; vm_compute; reflexivity. Qed.
 
 (* when the unfinished specification is not the whole text, the scanner walks past the NUL
    (provided libc does not fail on the incomplete specification) *)
+(* a lone '%' : with malloc(strlen+1) the NUL write of the piece buffer lands one byte behind it; with a
+   roomier buffer the unfinished specification swallows the terminator and the scanner walks past it *)
+Lemma lone_percent_crashes : forall k pos a, print_to nat ex_render ex_show k pos [PCT] [a] = OCrash.
+Proof. intros k pos a. destruct k; reflexivity. Qed.
+
+Lemma lone_percent_overruns_tight_buffer :
+  (print_buf_extra =? 1) && (print_buf_stack_cap =? 0) = true -> buf_put [PCT] 0 2 = None.
+Proof. intros H. apply buf_put_refuses. revert H. vm_compute. intros H. first [discriminate H | lia]. Qed.
+
 Lemma trailing_percent_crashes :
   print_to nat (fun _ _ _ => Some []) ex_show (SFile []) 0 [97; PCT] [1] = OCrash
   /\ (print_dispatch_nul_hits = true ->
